@@ -130,6 +130,35 @@ def _consumer_policy(P: Project) -> str | None:
     return None
 
 
+def _key_helper_text(helper: FuncInfo, comp: ast.AST) -> str:
+    """Source of module-level functions the key expression of a comprehension calls (one level): `{identity(p) for p in ...}`."""
+    out = ""
+    for c in ast.walk(comp):
+        if isinstance(c, ast.Call) and isinstance(c.func, ast.Name) and c.func.id in helper.module.functions:
+            out += " " + unparse(helper.module.functions[c.func.id].node, 4000)
+    return out
+
+
+def _identity_coarsened(helper: FuncInfo) -> tuple[ast.AST, FuncInfo] | None:
+    """A parameter is identified by its NAME AS WRITTEN and its location. Returns the first place where the merge helper
+    (or a key function it calls) applies a string method to the value read from 'name' before it is compared."""
+    fns = [helper] + [helper.module.functions[c.func.id] for n in walk_body(helper.node) for c in ast.walk(n)
+                      if isinstance(c, ast.Call) and isinstance(c.func, ast.Name) and c.func.id in helper.module.functions]
+    for f in fns:
+        def reads_name(e: ast.AST) -> bool:
+            if isinstance(e, ast.Call) and last_attr(e) == "get" and e.args and const_str(e.args[0]) == "name":
+                return True
+            return isinstance(e, ast.Subscript) and const_str(e.slice) == "name"
+        tainted = {t for n in walk_body(f.node) if isinstance(n, ast.Assign) and reads_name(n.value) for tg in n.targets for t in names_in(tg)}
+        for n in walk_body(f.node):
+            for c in ast.walk(n):
+                if isinstance(c, ast.Call) and isinstance(c.func, ast.Attribute) and c.func.attr in ("lower", "upper", "casefold", "strip", "title", "capitalize", "replace", "lstrip", "rstrip"):
+                    v = c.func.value
+                    if reads_name(v) or (isinstance(v, ast.Name) and v.id in tainted):
+                        return c, f
+    return None
+
+
 def _helper_filters_shared(helper: FuncInfo) -> bool | None:
     """H(op, shared): builds a key set from its first parameter and skips entries of the second whose key is in it."""
     params = params_of(helper.node)
@@ -141,17 +170,19 @@ def _helper_filters_shared(helper: FuncInfo) -> bool | None:
         if isinstance(n, (ast.SetComp, ast.DictComp, ast.ListComp, ast.GeneratorExp)):
             gens = n.generators
             if gens and first in names_in(gens[0].iter) | {x for nm in names_in(gens[0].iter) for _, v in assignments_to(helper.node, nm) if v is not None for x in names_in(v)}:
-                text = unparse(n, 400)
+                text = unparse(n, 400) + _key_helper_text(helper, n)
                 if "'name'" in text and "'in'" in text:
                     st = stmt_of(n)
                     if isinstance(st, ast.Assign) and isinstance(st.targets[0], ast.Name):
                         key_sets.append(st.targets[0].id)
     if not key_sets:
         return None
+    key_fns = {c.func.id for n in walk_body(helper.node) for c in ast.walk(n) if isinstance(c, ast.Call) and isinstance(c.func, ast.Name) and c.func.id in helper.module.functions
+               and "'name'" in unparse(helper.module.functions[c.func.id].node, 4000)}
     for n in walk_body(helper.node):
         if isinstance(n, ast.For) and second in names_in(n.iter):
             for s in iter_stmts(n.body):
-                if isinstance(s, ast.If) and any(k in names_in(s.test) for k in key_sets) and "'name'" in unparse(s.test, 300) and "'in'" in unparse(s.test, 300):
+                if isinstance(s, ast.If) and any(k in names_in(s.test) for k in key_sets) and (("'name'" in unparse(s.test, 300) and "'in'" in unparse(s.test, 300)) or names_in(s.test) & key_fns):
                     skips = any(isinstance(x, ast.Continue) for x in s.body)
                     cmp_in = any(isinstance(c, ast.Compare) and isinstance(c.ops[0], ast.In) for c in ast.walk(s.test))
                     cmp_notin = any(isinstance(c, ast.Compare) and isinstance(c.ops[0], ast.NotIn) for c in ast.walk(s.test))
@@ -205,7 +236,10 @@ def r2_merge_order(chk: Check) -> None:
                 if r and r[0] == "func" and len(e.args) == 2:
                     kinds = [_classify_param_source(fn, a) for a in e.args]
                     verdict = _helper_filters_shared(r[1])  # type: ignore[arg-type]
-                    if kinds == ["op", "shared"] and verdict is True:
+                    coarse = _identity_coarsened(r[1])  # type: ignore[arg-type]
+                    if coarse is not None:
+                        chk.violation("C08.R2", fn, construct, f"the merge helper identifies parameters by a TRANSFORMED name (`{unparse(coarse[0], 60)}` in {coarse[1].name}): two distinct parameters of one location whose names differ only in that respect (`Filter` / `filter` in the query) count as one, and the path-level one silently disappears from the operation", coarse[1].loc(coarse[0]))
+                    elif kinds == ["op", "shared"] and verdict is True:
                         chk.ok("C08.R2", fn, construct, "helper drops path-level entries shadowed by (name, in)", fn.loc(c))
                     elif kinds == ["shared", "op"] and verdict is True:
                         chk.violation("C08.R2", fn, construct, "the de-duplicating helper receives (path-level, operation-level): it drops the OPERATION-level definition", fn.loc(c))
